@@ -285,6 +285,8 @@ def show(n, depth=0, maxdepth=6):
         return "(" + ", ".join(s(e) for e in n["e"]) + ")"
     if k == "p_wild":
         return "_"
+    if k == "p_range":
+        return (s(n["s"]) if n.get("s") is not None else "") + ("..=" if n.get("closed") else "..") + (s(n["e"]) if n.get("e") is not None else "")
     if k == "p_or":
         return " | ".join(s(c) for c in n["c"])
     if k == "p_struct":
